@@ -32,3 +32,6 @@ pub use resource_quota::*;
 pub use system_hardware::*;
 
 pub mod pal;
+
+#[cfg(all(folo_verif, target_os = "linux", not(miri)))]
+pub mod verif;
